@@ -220,6 +220,7 @@ DRIVES = {
                   quick=dict(count=120, len=250), thorough=dict(count=3000, len=400)),
     "mem": dict(comps=["A", "P", "Q"], maxent=24, extra=dict(mem=True, gcstress=True, resetp=10), quick=dict(count=120, len=300), thorough=dict(count=2500, len=500)),
     "mem64": dict(comps=["P", "B", "Q"], maxent=150, extra=dict(mem=True, gcstress=True), quick=dict(count=40, len=900), thorough=dict(count=600, len=1500)),
+    "big": dict(comps=["A", "B"], maxent=260, extra=dict(batchn=90, mem=True), quick=dict(count=30, len=250), thorough=dict(count=400, len=500)),
     "plain": dict(comps=["A", "B", "C"], maxent=40, quick=dict(count=100, len=400), thorough=dict(count=1500, len=800)),
 }
 
@@ -240,7 +241,8 @@ CELLS = {
 # property -> list of (family, [cells]) ; quick picks a seed-chosen subset of cells
 PLANS = {
     "C01": [("core", ["typed1", "unsafe1", "exch8", "typed11", "typedfill", "mapt1"]), ("rel", ["typed1", "unsafe2", "mapt1"]),
-            ("drive:wide", ["typed1", "unsafe2", "exch8", "mapt42"]), ("drive:plain", ["typed11", "unsafe1"])],
+            ("drive:wide", ["typed1", "unsafe2", "exch8", "mapt42"]), ("drive:plain", ["typed11", "unsafe1"]),
+            ("drive:big", ["typed1", "unsafe3"])],
     "C02": [("core", ["typed1", "unsafe1"]), ("rel", ["typed11", "unsafe1"]), ("drive:wide", ["typed1", "unsafe2"]),
             ("drive:rel2", ["typed11", "unsafe1"])],
     "C03": [("core", ["typed1", "unsafe1", "typedfill"]), ("rel", ["typed1", "unsafe1", "typed11"]), ("cache", ["typed1"]),
@@ -264,13 +266,13 @@ PROP_CFG["C08"] = (dict(probes=1), dict(probes=2))
 PROP_CFG["C09"] = (dict(probes=1), dict(probes=2))
 PLANS["C06"] = [("batch", ["typed1", "typed11", "exch8", "typed53"]), ("drive:wide", ["typed1", "exch8", "typed53"]),
                 ("drive:rel2", ["typed11", "typed1"])]
-PLANS["C19"] = [("core", ["typed1", "unsafe1"]), ("cache", ["typed1", "unsafe2"]),
+PLANS["C19"] = [("statsmodel", []), ("core", ["typed1", "unsafe1"]), ("cache", ["typed1", "unsafe2"]),
                 ("drive:wide", ["typed1", "unsafe2", "typed53"]), ("drive:lock", ["typed1", "unsafe1"]), ("drive:obs", ["typed11"])]
 PROP_CFG["C19"] = (dict(probes=1, stats=True), dict(probes=2, stats=True))
 PLANS["C16"] = [("cache", ["typed1", "unsafe2"]), ("drive:reset", ["typed1", "unsafe2", "typed11"]), ("drive:reset2", ["typed11", "unsafe1"])]
 PLANS["C17"] = [("dump", ["typed1", "unsafe2", "typed53"]), ("drive:reset", ["typed1", "unsafe2", "typed11", "typed53"]), ("drive:reset2", ["typed11", "unsafe1"])]
 PLANS["C11"] = [("core", ["typed1", "unsafe1", "exch8", "mapt1"]), ("batch", ["typed1", "typed53"]),
-                ("drive:mem", ["typed1", "unsafe2", "exch8", "typed11", "mapt42"]), ("drive:mem64", ["typed1", "unsafe3", "typed53"])]
+                ("drive:mem", ["typed1", "unsafe2", "exch8", "typed11", "mapt42"]), ("drive:big", ["typed1", "unsafe3", "typed53"]), ("drive:mem64", ["typed1", "unsafe3", "typed53"])]
 PLANS["C07"] = [("lock", ["typed1", "unsafe2", "typed11"]), ("drive:lock", ["typed1", "unsafe2", "typed11"]), ("drive:lock64", ["typed1", "unsafe1"])]
 PROP_CFG["C07"] = (dict(probes=2, misuse=8), dict(probes=4, misuse=-1))
 PLANS["C10"] = [("core", ["typed1", "unsafe1", "exch8", "mapt1"]), ("rel", ["typed1", "unsafe1", "typed11", "mapt1"]),
@@ -837,6 +839,12 @@ def check_generic(ctx):
         if fam == "obsmodel":
             run_obs_model(ctx)
             continue
+        if fam == "statsmodel":
+            gen_, dist_, bad_ = run_tlc_model(ctx, "ArkStats", "", "SPECIFICATION Spec\nCONSTANTS\n  MaxArch = 2\n  MaxTab = %d\n  MaxSize = 1\n"
+                                              "INVARIANTS IncrementalEqualsFresh Algebra\nCHECK_DEADLOCK FALSE\n" % (2 if quick else 3), "stats", timeout=1500)
+            if bad_:
+                ctx.stats["design_findings"].append(dict(family="stats", invariant=bad_))
+            continue
         if fam == "obsenum":
             run_obsenum(ctx, choose_cells(ctx, cells), 1)
             continue
@@ -865,7 +873,7 @@ def check_generic(ctx):
             continue
         ctx.stats["sequences"] += gen["nseq"]
         # quick tier: replay a seed-chosen sample of the transitions sized to the budget
-        nbfs = max(1, len([1 for f, _ in plan if not f.startswith("drive:") and f not in ("obsmodel", "obsenum")]))
+        nbfs = max(1, len([1 for f, _ in plan if not f.startswith("drive:") and f not in ("obsmodel", "obsenum", "statsmodel")]))
         budget = (400000 // nbfs) if quick else 10 ** 9   # events per family
         cs = choose_cells(ctx, cells)
         per_seq = FAMILIES[fam]["tiers"][ctx.tier]["MaxHist"] + 7
